@@ -60,6 +60,17 @@ def run(ctx):
     # ... and every idle point of concurrent agent histories (TraceIdle demands a passing check and an empty .tmp)
     scs = [load_scenario("load-%d" % i, ["local", ""][i % 2], ctx.seed * 13 + i, clients=8, calls=10) for i in range(4 if not thorough else 20)]
     scs += af.simulated_scenarios(ctx, 10 if not thorough else 100)
+    # hash upgrades (record with a 70 000-byte auxiliary line, so the rewrite takes a while) against a stream of set-admin
+    # requests for the same user; the default is switched by reloads so that every round has a fresh upgrade.  Whatever the
+    # interleaving, the user has one file and the directory passes the check.
+    rounds = []
+    for i in range(40 if not thorough else 200):
+        rounds += [{"t": "hup", "n": [3, 2][i % 2]},
+                   {"t": "load", "clients": 4, "calls": 4, "quiet": True, "kinds": ["setadmin", "setadmin", "auth"], "users": ["u1"], "pws": ["p1"]},
+                   {"t": "sleep", "n": 15}, {"t": "checkdup"}]
+    scs.append({"name": "upgrade-vs-setadmin", "mode": "local", "default": 2, "passwords": af.PASSWORDS, "gated": False, "seed": 3, "novalidate": True,
+                "files": {"u1": {"present": True, "pw": "p1", "set": 1, "adm": False}, "u2": {"present": True, "pw": "p2", "set": 2, "adm": True}},
+                "steps": rounds + [{"t": "free"}]})
     results, events = af.run_scenarios(ctx, scs, "c16")
     before = len(ctx.violations)
     nval = af.judge(ctx, scs, results, events, "c16", "C16")
@@ -67,6 +78,8 @@ def run(ctx):
         if v["key"] == "idle-directory-differs" and ("checkok" in v["detail"] or "tmpempty" in v["detail"]):
             ctx.violation("C16", "agent-idle:" + v["key"], v["detail"])
     for e in events:
+        if e["ev"] == "dupseen":
+            ctx.violation("C16", "two-files-for-one-user-seen", "with all calls answered, both %s.user and %s.admin are in the directory" % (e["u"], e["u"]))
         if e["ev"] == "idle" and (not e.get("tmpempty", True)):
             ctx.violation("C16", "agent-idle:tmp-not-empty", "work area not empty at an idle point")
         if e["ev"] == "idle" and e.get("checkerr") and e.get("checkok"):
